@@ -10,7 +10,7 @@
    frames), so no decoder can run longer than the input it is given; the only
    unbounded recursion of the code (frame reassembly) recurses on the input. *)
 From Coq Require Import List NArith ZArith.
-From Cedar Require Import Lib.Bytes gen.Consts Model.Msg Model.Decode Model.Sinful Proofs.C13 Proofs.C13ad Proofs.C13raw Proofs.C13sinful.
+From Cedar Require Import Lib.Bytes gen.Consts Model.Msg Model.Decode Model.Sinful Model.Version Proofs.C13 Proofs.C13ad Proofs.C13raw Proofs.C13sinful Proofs.C13version.
 Import ListNotations.
 Local Open Scope N_scope.
 
@@ -208,4 +208,39 @@ Example C13_sinful_example :
   option_map (fun r => (sf_err r, sf_primary r, sf_params r))
     (parse_sinful [x3c; x68; x3a; x31; x3f; x61; x3d; x25; x7a; x7a; x3e])
   = Some (true, [x68; x3a; x31], []).
+Proof. split; vm_compute; reflexivity. Qed.
+
+(* ---- version.Parse / AtLeast / message BuiltSinceVersion (Model/Version.v) --------------- *)
+(* The model has no partial operation (Atoi guards its own s[0]), so totality is by
+   construction.  An accepted version has all three components inside int64 (a major or
+   minor that overflows is refused; an overflowing third component is clamped, a malformed
+   one reads as 0), and comes from one token of the input. *)
+Theorem C13_version_parse_sound :
+  forall (s : bytes) (a b c : Z), version_parse s = Some (a, b, c) ->
+    in_int64 a /\ in_int64 b /\ in_int64 c /\
+    exists f, In f (fields_by is_version_sep s []) /\ version_of_field f = Some (a, b, c) /\ lenN f <= lenN s.
+Proof. exact version_parse_sound. Qed.
+Print Assumptions C13_version_parse_sound.
+
+Theorem C13_version_parse_work :
+  forall s : bytes, (length (fields_by is_version_sep s []) <= count_sep is_version_sep s + 1)%nat.
+Proof. exact version_parse_work. Qed.
+Print Assumptions C13_version_parse_work.
+
+(* AtLeast is a total preorder (the lexicographic order) and the ClassAd writer's
+   BuiltSinceVersion gate is the same relation. *)
+Theorem C13_version_order :
+  (forall v, at_least v v = true) /\
+  (forall u v w, at_least u v = true -> at_least v w = true -> at_least u w = true) /\
+  (forall u v, at_least u v = true \/ at_least v u = true) /\
+  (forall u v, built_since u v = at_least u v).
+Proof. exact at_least_order. Qed.
+Print Assumptions C13_version_order.
+
+Example C13_version_example :
+  (* "$CondorVersion: 25.4.0 2025-11-01 $" and "1.2.99999999999999999999" *)
+  version_parse [x24; x43; x6f; x6e; x64; x6f; x72; x56; x65; x72; x73; x69; x6f; x6e; x3a; x20; x32; x35; x2e; x34; x2e; x30;
+                 x20; x32; x30; x32; x35; x2d; x31; x31; x2d; x30; x31; x20; x24] = Some (25, 4, 0)%Z
+  /\ version_parse [x31; x2e; x32; x2e; x39; x39; x39; x39; x39; x39; x39; x39; x39; x39; x39; x39; x39; x39; x39; x39; x39; x39; x39; x39]
+      = Some (1, 2, int64_max)%Z.
 Proof. split; vm_compute; reflexivity. Qed.
